@@ -1,6 +1,8 @@
 """C04 - honest runs always complete and track the ideal ledger exactly."""
 from core import *
 from abacuslib import *
+from custsim import *
+from rangelib import coq_rp
 
 RULE = ("honest customer and merchant (real APIs, merchant configuration with known discrete logs and one from "
         "merchant::Config::new): initial balances on the lattice [0, 2^63-1]^2 (boundary values incl. 128^8 and 2^63-1, whose "
@@ -35,6 +37,8 @@ def run(run, h):
             cb, mb = 128 ** 8, MAX
         one_run(run, h, batch, rng, M if i % 3 else Mg, cb, mb, "r%d" % i)
     batch.flush()
+    for i in range(1 if run.tier == "quick" else 4):
+        composed_case(run, h, pts, rng, M, i)
 
 
 def report(h, stage, hexs):
@@ -88,3 +92,77 @@ def one_run(run, h, batch, rng, M, cb, mb, tag):
         h.rng(rng.randrange(2 ** 31))
         cm = h.call("close", "ready", ready, M.handle)
         run.check_monitor("closing_message_reports_ledger_and_is_accepted", (int(cm[1]), int(cm[2])) == tuple(ledger) and cm[5] == "1", case)
+
+
+def composed_case(run, h, pts, rng, M, i):
+    """The composition itself (Model/Protocol.v full_payment) against a real payment: the same Ready state, amount, named
+    randomness (recovered order-free from the served scalars), context and merchant randomisers go through the real
+    Ready::start / allow_payment / lock / complete_payment / unlock and through the Coq composition, whose Fiat-Shamir hash is
+    the table {model transcript -> challenge the code derived}; the resulting Ready states (state, pay token, closing
+    signature) must coincide."""
+    cb, mb = rng.choice([(1000, 10), (2 ** 62, 5), (7, 2 ** 63 - 8)])
+    cid = rng.randbytes(32)
+    est = full_establish(h, M, rng, cid, cb, mb, b"est")
+    if not run.check_monitor("honest_establishment_completes", est["ok"], {"composed": i}):
+        return
+    req = est["e"]["req"]
+    st = req["state"]
+    u1e, u2e = est["u"]
+    tok = token_dl(M, state_msg(st), req["bf_token"], u2e)
+    csig = unblind_dl(bsign_dl(M, u1e, commit_msg_dl(M, close_msg(st), req["bf_close"])), req["bf_close"])
+    ready = est["ready"]
+    amt = rng.choice([1, 0, -3, min(st["cb"], 5)])
+    ctx = rng.randbytes(9)
+    tape = [rand_nz(rng) for _ in range(89)]
+    h.begin()
+    h.call("chal_drain")
+    h.rng(31, tape)
+    t = h.call("ready_start", ready, amt, hx(ctx), M.cconfig)
+    served, _ = h.served()
+    ch = last_challenge(h)
+    case = {"op": "composed_payment", "cb": cb, "mb": mb, "amount": amt}
+    if not run.check_monitor("honest_payment_completes", t[0] == "ok", dict(case, stage="start", script=h.end())):
+        return
+    started_hex, nonce_hex, proof_hex = t[1], t[2], t[3]
+    started, pp = parse_started(started_hex), parse_pproof(proof_hex)
+    u1, u2 = rand_nz(rng), rand_nz(rng)
+    a = merchant_allow(h, M, amt, unsc(nonce_hex), proof_hex, ctx, u=u1)
+    ok = a["ok"]
+    final = None
+    if ok:
+        l = h.call("started_lock", started_hex, a["closing"], M.cconfig)
+        ok = l[0] == "ok"
+        if ok:
+            h.rng(5, [u2])
+            cp = h.call("u_complete", a["unrev"], l[2], l[3])
+            ok = cp[0] == "ok"
+            if ok:
+                ul = h.call("locked_unlock", l[1], cp[1], M.cconfig)
+                ok = ul[0] == "ok"
+                final = ul[1] if ok else None
+    case["script"] = h.end()
+    run.case(case)
+    run.count("composed payment (model of both parties)")
+    if not run.check_monitor("honest_payment_completes", ok, dict(case, stage="reply")):
+        return
+    c = ch["c"]
+    d = recover_pay(M, pts, served, started, pp, tok, c)
+    if not run.check_corr("corr.C04.randomness_is_fresh_draws", d is not None, case):
+        return
+    old, new, newc = state_msg(started["old"]), state_msg(started["new"]), close_msg(started["new"])
+    honest = build_pay(M, tok, old, new, newc, old[2], (digits(started["new"]["cb"]),) * 2, (digits(started["new"]["mb"]),) * 2, d, c)
+    ctxh = zlist(list(sha3(ctx)))
+    pre = "Definition pk0 := %s.\nDefinition rp0 := %s.\n" % (coq_pk(M.pk), coq_rp(M.rp))
+    tr = eval_model(["r_pay_transcript pk0 rp0 %s %s %s" % (zlit(unsc(nonce_hex)), coq_pproof(honest), ctxh)], "C04t", preamble=pre)[0]
+    run.check_corr("corr.C04.pay_transcript", "".join(concretize_atoms(pts, tr)) == "".join(a["chal"]["chunks"]), case)
+    mirror = Cust(M, "ready", ready, csig=csig, tok=tok)
+    term = "r_full_payment (mk_m %s pk0 %s %s rp0) [(%s, %s)] %s %s %s %s %s %s %s %s" % (
+        coq_sk(M.key["sk"]), zlit(M.hr), zlit(M.gr), zlist(tr), zlit(c), mirror.coq(), zlit(amt),
+        zlit(started["new"]["nonce"]), zlit(started["new"]["lock"]), coq_draws(d), ctxh, zlit(u1), zlit(u2))
+    r = eval_model([term], "C04f", preamble=pre)[0]
+    fin = parse_ready(final)
+    fs = fin["state"]
+    ok = (r[0] == 1 and r[1] == 2 and r[2:7] == [cid_scalar(fs["cid"]), fs["nonce"], fs["lock"], fs["cb"], fs["mb"]]
+          and pts.g1(r[7]) == fin["token"][0] and pts.g1(r[8]) == fin["token"][1]
+          and pts.g1(r[9]) == fin["close_sig"][0] and pts.g1(r[10]) == fin["close_sig"][1])
+    run.check_corr("corr.C04.full_payment_composition", ok, dict(case, model_head=r[:7]))
